@@ -10,7 +10,7 @@ package jsonrpc
 //@ property C12 units: WithMethodNameFormatter$1, WithServerMethodNameFormatter$1, NewServer, (*RPCServer).Register, NewMergeClient, makeHandler, (*handler).register, (*handler).handle, processFuncOut, (*client).makeRpcFunc, NewMethodNameFormatter$1, (*RPCServer).AliasMethod, WithClientHandlerAlias$1
 //@ property C14 units: (*wsConn).setupPings$1, (*wsConn).setupPings$2, (*wsConn).setupPings$5$1, (*deadlineResetReader).Read, (*wsConn).nextWriter, (*wsConn).sendRequest, (*wsConn).setupPings, (*wsConn).setupPings$4, (*wsConn).handleWsConn, (*wsConn).tryReconnect, (*wsConn).tryReconnect$1, (*wsConn).handleOutChans, (*wsConn).handleCtxAsync, (*wsConn).nextMessage, (*wsConn).handleResponse, (*wsConn).handleCall, (*wsConn).handleCall$3, (*wsConn).cancelCtx, (*wsConn).handleChanMessage, (*wsConn).handleChanClose, (*wsConn).closeInFlight, (*wsConn).closeChans, (*wsConn).readFrame, (*wsConn).resetReadDeadline, withLazyWriter, (*lazyWriter).Write, (*lazyWriter).Write$1$1
 //@ property C05 units: WithReconnectBackoff$1, WithNoReconnect$1, websocketClient$1, (*RPCConnectionError).Error, (*RPCConnectionError).Unwrap, WithErrors$1, NewErrors, (*JSONRPCError).val, (*backoff).next, (*wsConn).tryReconnect, (*wsConn).tryReconnect$1, (*wsConn).handleWsConn, websocketClient, (*rpcFunc).handleRpcCall
-//@ property C03 units: websocketClient$3, (*client).setupRequestChan, (*deadlineResetReader).Read, (*wsConn).resetReadDeadline, (*wsConn).handleWsConn, (*wsConn).tryReconnect, (*wsConn).tryReconnect$1, (*wsConn).closeInFlight, (*wsConn).nextMessage, (*wsConn).readFrame, (*client).setupRequestChan$1
+//@ property C03 units: websocketClient$3, (*client).setupRequestChan, (*deadlineResetReader).Read, (*wsConn).resetReadDeadline, (*wsConn).handleWsConn, (*wsConn).tryReconnect, (*wsConn).tryReconnect$1, (*wsConn).closeInFlight, (*wsConn).nextMessage, (*wsConn).readFrame, (*client).setupRequestChan$1, (*wsConn).sendRequest
 //@ property C02 units: (*rpcFunc).handleRpcCall, normalizeID, (*client).makeRpcFunc, (*client).setupRequestChan$1, httpClient$1, NewCustomClient$1, (*wsConn).handleWsConn, (*wsConn).handleResponse, (*wsConn).closeInFlight, (*wsConn).frameExecutor, (*wsConn).handleFrame, (*wsConn).handleCall, (*handler).handle, rpcError$1
 //@ property C04 units: (*rpcFunc).handleRpcCall, (*client).makeRpcFunc, (*client).provide, httpClient$1, (*wsConn).handleWsConn, (*wsConn).frameExecutor, (*wsConn).handleFrame, (*wsConn).handleCall, (*handler).handle, (*wsConn).closeInFlight, (*wsConn).closeChans, (*wsConn).tryReconnect, (*wsConn).tryReconnect$1
 //@ property C06 units: (*client).setupRequestChan$1, (*wsConn).handleCtxAsync, (*wsConn).handleResponse, (*wsConn).cancelCtx, (*wsConn).handleCall, (*wsConn).handleCall$2, (*wsConn).handleCall$3, (*handler).handle, (*wsConn).closeInFlight, (*RPCServer).ServeHTTP, (*handler).handleReader, httpClient$1, (*wsConn).handleFrame
@@ -91,6 +91,9 @@ package jsonrpc
 
 //@ func (*wsConn).sendRequest
 //@   ensures one-frame: calls(WriteJSON) == 1 [C14,C04]
+//@   ghost werr : U = nil
+//@   at ret WriteJSON: set werr = $result0
+//@   ensures write-failure-reported-to-the-caller: result == werr [C03,C02]
 
 //@ func (*wsConn).setupPings$4
 
@@ -128,7 +131,10 @@ package jsonrpc
 //@   at mapset wsConn.inflight: assert not-registered-on-a-dead-link: !hasErr && heldclass("wsConn.writeLk") [C03]
 //@   at call sendRequest: assert registered-before-written: req.req.ID != nil ==> registered [C02,C03]
 //@   at call sendRequest: assert sends-the-dequeued-request: $1 == req.req && calls(sendRequest) >= 0 [C02,C04]
-//@   at send req.ready: assert local-completion-shape: (req.req.ID != nil ==> $val.Error != nil && $val.Error.Code == -1111111 && $val.ID == req.req.ID && !registered && defined(hasErr) && hasErr) && (req.req.ID == nil ==> $val.ID == nil && $val.Result == nil) [C03,C04]
+//@   at send req.ready: assert local-completion-shape: (req.req.ID != nil ==> $val.Error != nil && $val.Error.Code == -1111111 && $val.ID == req.req.ID && !registered && defined(hasErr) && hasErr) && (req.req.ID == nil ==> $val.ID == nil && $val.Result == nil && (($val.Error != nil) == (sendErr != nil))) [C03,C04]
+//@   ghost sendErr : U = nil
+//@   at ret sendRequest: set sendErr = $result0
+//@   ensures keepalive-stopped-when-the-loop-ends: calls(stopPings) >= 1 [C15]
 //@   loop 1 invariant reader-channel: c.incoming != nil && chancap(c.incoming) == 0 [C03,C10]
 //@   ensures exits-only-for-a-cause: branch == 1 || branch == 2 || ((branch == 3 || branch == 4) && reconnectFailed) || (branch == 3 && err == nil) || (branch == 5 && c.connFactory == nil) [C03,C05]
 //@   at store wsConn.readError: assert read-failure-report-never-blocks-a-dead-loop: chancap($val) >= 1 [C15,C03]
@@ -225,6 +231,9 @@ package jsonrpc
 //@   at call reflect.ValueOf: assert cancel-names-the-subscribing-call: $0 == id [C06]
 //@   at call sendRequest: assert cancel-message-shape: $1.Method == "xrpc.cancel" && $1.ID == nil && $1.Params == rp && calls(Done) == 1 [C06]
 //@   ensures at-most-one-cancel: calls(sendRequest) <= 1 [C06]
+//@   ghost merr : U = nil
+//@   at ret encoding/json.Marshal: set merr = $result1
+//@   ensures cancel-sent-once-the-context-ends: merr == nil ==> calls(sendRequest) == 1 [C06]
 
 //@ func (*wsConn).handleCall$3
 //@   at dyncall cancel: assert released-only-when-not-kept: !keepctx [C06]
@@ -322,6 +331,11 @@ package jsonrpc
 //@   at call encoding/json.Unmarshal: assert decodes-the-dequeued-frame: $0 == buf0 [C02,C04]
 //@   at call encoding/json.Unmarshal: assert decodes-into-a-zeroed-frame: frame.ID == nil && frame.Method == "" && len(frame.Params) == 0 && len(frame.Result) == 0 && frame.Error == nil && frame.Meta == nil [C04,C02,C09]
 //@   at call handleFrame: assert each-frame-dispatched-at-most-once: handled == 0 && idok($2.ID) [C02,C04,C10]
+//@   ghost uerr : U = nil
+//@   ghost nerr : U = nil
+//@   at ret encoding/json.Unmarshal: set uerr = $result0
+//@   at ret normalizeID: set nerr = $result1
+//@   at call handleFrame: assert only-wellformed-frames-dispatched: uerr == nil && nerr == nil && calls(Unmarshal) >= 1 && calls(normalizeID) >= 1 [C10,C12,C04]
 //@   at call handleFrame: assert handlers-inherit-connection-context: $1 == ctx [C15,C06]
 //@   at recv ctx.Done(): assert stops-with-connection-context: true [C15]
 //@   at call handleFrame: inc handled
@@ -339,6 +353,10 @@ package jsonrpc
 //@   requires reader-owns-open-channel: c.incoming != nil && !closed(c.incoming) [C10,C03,C08]
 //@   at call (*github.com/gorilla/websocket.Conn).NextReader: assert read-deadline-armed-before-every-read: calls(resetReadDeadline) == 1 [C03]
 //@   at store wsConn.incomingErr: assert failure-flags-link-before-closing: $val != nil && !closed(c.incoming) [C03]
+//@   ghost flagged : Bool = false
+//@   at store wsConn.incomingErr: set flagged = true
+//@   at close c.incoming: assert closes-only-after-recording-the-cause: flagged [C03,C05]
+//@   ensures every-failure-closes-the-channel: (flagged ==> closed(c.incoming)) && (!flagged ==> !closed(c.incoming)) [C03,C05]
 //@   ensures failed-read-flags-and-closes-once: calls(NextReader) == 1 [C03]
 //@   nopanic [C10]
 
@@ -404,6 +422,9 @@ package jsonrpc
 //@   at dyncall done: set lastKeep = $0
 //@   ensures streams-keep-their-context: defined(outCh) ==> lastKeep == outCh [C06,C15]
 //@   ensures unresolved-calls-release-context: !resolvable(s, req.Method) ==> !lastKeep [C06]
+//@   ghost released : Bool = false
+//@   at dyncall done: set released = released || !$0
+//@   ensures arity-rejected-calls-release-context: rpcCode == -32602 ==> released [C06,C15]
 //@   ghost rpcCode : Int = 0
 //@   ghost chanDeferred : Bool = false
 //@   at call dyn:rpcError: set rpcCode = $2
@@ -613,6 +634,7 @@ package jsonrpc
 //@   at store wsConn.handler: assert connection-dispatches-to-reverse-handler: len(config.reverseHandlers) > 0 ==> $val != nil [C16]
 //@   at store wsConn.handler: assert no-handler-means-nil-interface: len(config.reverseHandlers) == 0 ==> $val == nil [C10]
 //@   at store wsConn.exiting: assert closer-waits-on-this-connections-exit: $val == exiting [C16,C18]
+//@   at store client.exiting: assert callers-watch-this-connections-exit-signal: $val != nil && $val == exiting [C03,C16]
 //@   at store wsConn.connFactory: assert no-reconnect-drops-the-dial-factory: config.noReconnect ==> $val == nil [C05]
 //@   at store wsConn.reconnectBackoff: assert uses-configured-backoff: $val == config.reconnectBackoff [C05]
 
@@ -674,6 +696,7 @@ package jsonrpc
 //@   ensures caller-context-attached: calls(Do) == 1 && ctx != nil ==> calls(WithContext) == 1 [C06]
 //@   at call (net/http.Header).Set: assert request-not-marked-idempotent: $1 != "Idempotency-Key" && $1 != "X-Idempotency-Key" [C04]
 //@   at call net/http.NewRequest: assert sent-as-post: $0 == "POST" [C04]
+//@   at store net/http.Request.Header: assert sends-the-configured-headers: calls(Clone) == 1 [C01]
 //@   ensures one-http-exchange: calls(Do) <= 1 [C04]
 //@   ensures answer-carries-request-id: result1 == nil && cr.req.ID != nil ==> result0.ID == cr.req.ID [C02]
 
@@ -746,6 +769,7 @@ package jsonrpc
 //@   at ret (reflect.Type).Elem: let rt = $result0
 //@   at mapset Errors.byType: assert type-registered-exactly-as-given: $key == rt && $val == c [C11]
 //@   at mapset Errors.byType: inc nType
+//@   at mapset Errors.byType: assert only-error-types-registered: rImplements($key, errorType) [C11]
 //@   at mapset Errors.byCode: assert code-maps-back-to-that-type: $key == c && $val == rt [C11]
 //@   at mapset Errors.byCode: inc nCode
 //@   ensures exactly-one-entry-each-way: nType == 1 && nCode == 1 [C11]
